@@ -53,6 +53,21 @@ func TestRegress_AppendNumber(t *testing.T) {
 	}
 }
 
+// 2d66a88: values that round to the largest float
+func TestRegress_ParseFloatMax(t *testing.T) {
+	for _, s := range []string{"1.7976931348623158e308", "-1.7976931348623158e308", "17976931348623158e292", "0.00017976931348623158e312", "1.7976931348623157e308"} {
+		got, n := strconv.ParseFloat([]byte(s))
+		if n != len(s) || math.Abs(got) != math.MaxFloat64 || (s[0] == '-') != (got < 0) {
+			t.Errorf("ParseFloat(%q) = %v, %d", s, got, n)
+		}
+	}
+	for _, s := range []string{"1.8e308", "1e309", "1.7977e308"} {
+		if got, _ := strconv.ParseFloat([]byte(s)); !math.IsInf(got, 1) {
+			t.Errorf("ParseFloat(%q) = %v, want +Inf", s, got)
+		}
+	}
+}
+
 func TestRegress_ParseFloat(t *testing.T) {
 	for _, s := range []string{"41000e-321", "41000e-310", "5e-324", "9e-324", "1e-400", "123456789e-320"} {
 		got, n := strconv.ParseFloat([]byte(s))
